@@ -1371,12 +1371,10 @@ def SrcOk : SrcRule → Prop
   (C15-foreign-style-rule),
 * `parse` with a non-empty dict of namespaces (C15-tuple-namespaces), or of a text with an @variables rule
   (C15-namespace-after-variables),
-* `rule.cssText = '@namespace p …'` with a prefix another rule of the sheet has (C15-csstext-prefix-collision),
 * `del sheet.cssRules[i]` / `.pop(i)` on the declaration of a URI that is in use (C15-rulelist-bypass). -/
 def OpOk (s : Sheet) : Op → Prop
   | .parse init src => init = [] ∧ ∀ r ∈ src, SrcOk r
   | .insStyleObj sels _ _ => ∀ u ∈ selsUris sels, u ∈ nsUris s
-  | .setNsText i p _ _ _ _ => prefixTaken s i p = false
   | .rawDel i => ∀ n, s[i]? = some (.ns n) → n.uri ∉ usedUris s
   | _ => True
 
